@@ -211,7 +211,7 @@ def run(ch, config, res):
                     break
                 if rc[0] == "ok":
                     for c in conds:
-                        kinds.add("c:" + (c[0] if isinstance(c[0], str) and c[0] in ("exists", "notexists", "size", "envelope", "address", "body", "currentdate", "true", "false") else "header"))
+                        kinds.add("c:" + E.cond_kind(c))
                     for a in acts:
                         kinds.add("a:" + a[0])
             elif op == "replace":
